@@ -243,10 +243,13 @@ def register_exchange(reg):
                    z3.ForAll([k], Implies(m.dom(k), Not(is_none(m.val(k))))), m.dom(UNITS_KEY))
 
     # ---- IOutput.get_info as seen from the consumer side (Output.get_info verified above refines it; adapters: C07.4)
+    reg.field("$delivered_info", TRef("Info"))
     reg.add(Contract("iface:IOutput.get_info", params={"info": TRef("Info")}, note="method", result=TRef("Info"), verify=False,
                      modifies=lambda ctx: [(None, f) for f in ("_grid", "_time", "meta", "_mask", "_out_infos_exchanged", "_output_info",
-                                                               "_input_info", "_in_info_exchanged", "_transform", "initial_time")],
+                                                               "_input_info", "_in_info_exchanged", "_transform", "initial_time", "$delivered_info")],
                      ensures=lambda ctx, r: And(r.e > 0, r.e != ctx.info.e, all_set(ctx, r.e),
+                                                # ghost: the info this source delivered last (names it for the consumer's contract)
+                                                ctx.get(ctx.self, "$delivered_info").e == r.e,
                                                 # the request object itself is not modified
                                                 sv.value_eq(grid_of(ctx, ctx.info.e), grid_of(ctx.old, ctx.info.e)),
                                                 sv.value_eq(time_of(ctx, ctx.info.e), time_of(ctx.old, ctx.info.e)),
@@ -327,16 +330,25 @@ def register_exchange(reg):
             # a consumer that fixed its mask (an explicit mask, not FLEX / NONE) ends up with exactly that mask
             Implies(And(Not(is_none(mask_of(c0, req))), MSPEC(obj_or(mask_of(c0, req), NOMASK))),
                     sv.value_eq(mask_of(ctx, new), mask_of(c0, req))),
+            # the stored transformation leads from the grid the source delivered to the grid of the completed input info
+            # (C15.4 / C08: applied to every pulled data set; None exactly for equal layouts)
+            transform_from_delivered(ctx, tr, new),
         )
 
+    def transform_from_delivered(ctx, tr, new):
+        src = strip_none(ctx.old.get(ctx.self, "_source")).e
+        dg = ref_or0(grid_of(ctx, ctx.get(src, "$delivered_info").e))
+        ng = ref_or0(grid_of(ctx, new))
+        return sv.value_eq(tr, sv.opt(GEQ(dg, ng), sv.SObj(GT(dg, ng), "transform")))
+
     reg.add(Contract(
-        f"{INP}.exchange_info", self_cls="Input", props=["C07.3", "C15.4", "C05.1"], params={"info": TOpt(TRef("Info"))},
+        f"{INP}.exchange_info", self_cls="Input", props=["C07.3", "C15.4", "C05.1", "C08.5"], params={"info": TOpt(TRef("Info"))},
         result=TOpt(TRef("Info")),
         requires=lambda ctx: And(Not(is_none(ctx.get(ctx.self, "_source"))), Implies(Not(is_none(ctx.info)), strip_none(ctx.info).e > 0),
                                  Implies(Not(is_none(ii(ctx))), strip_none(ii(ctx)).e > 0)),
         ensures=ei_post, axioms=lambda ctx: relation_axioms(),
         modifies=lambda ctx: [(None, f) for f in ("_grid", "_time", "meta", "_mask", "_out_infos_exchanged", "_output_info", "_input_info",
-                                                  "_in_info_exchanged", "_transform", "initial_time")],
+                                                  "_in_info_exchanged", "_transform", "initial_time", "$delivered_info")],
         raises={"FinamNoDataError": lambda ctx: z3.BoolVal(True), "FinamMetaDataError": lambda ctx: z3.BoolVal(True)},
         must_raise={"FinamMetaDataError": ei_bad_args},
     ))
@@ -348,7 +360,7 @@ def register_exchange(reg):
 def register_adapter_info(reg):
     AD = "finam.sdk.adapter"
     MODS = lambda ctx: [(None, f) for f in ("_grid", "_time", "meta", "_mask", "_out_infos_exchanged", "_output_info", "_input_info",
-                                            "_in_info_exchanged", "_transform", "initial_time")]
+                                            "_in_info_exchanged", "_transform", "initial_time", "$delivered_info")]
 
     def fwd_post(ctx, r, delay=False):
         a = ctx.self
